@@ -1,7 +1,8 @@
 (* driver for C20: case "<termtype> <hexstream> <cuts|-> <tok> <tok> ..." where the tokens are
    what the system's libtermkey finds in the WHOLE stream (harness/C20_tok.c).
    the cuts may carry a gap ("<cut>+<usec>"): virtual time that passes after the chunk, before
-   the time-out is polled.
+   the time-out is polled.  A termtype "<name>@<usec>" makes every key / mouse handler take <usec>
+   of virtual time (VERIF_C20_EARLY=1: the seeded variant that reads the clock before the handlers run).
    model : InputDefs.tpush / tpoll over the chunks (the drain and feed loops of push_bytes), with the abstract tokenizer instantiated by
            the dictionary { bytes of a token |-> its key } (shortest match; a non-empty buffer
            that starts with no known token is "again"), buffer capacity 256.
@@ -29,7 +30,9 @@ let parse_tok t =
   | _ -> failwith "tok"
 let parse_case line =
   match split_ws line with
-  | _tt :: hex :: cuts :: toks ->
+  | tt :: hex :: cuts :: toks ->
+    (* "<termtype>@<usec>": every key / mouse handler of the application takes <usec> of virtual time *)
+    let ht = (match String.index_opt tt '@' with Some i -> int_of_string (tl tt (i + 1)) | None -> 0) in
     let bytes = Array.of_list (bytes_of_hex hex) in
     let n = Array.length bytes in
     let cuts = if cuts = "-" then [] else
@@ -72,7 +75,7 @@ let parse_case line =
              | None -> go r (i + 1)) in
         go buf 1
       end in
-    (chunks, tok, List.rev !keys, !leftover)
+    (chunks, tok, List.rev !keys, !leftover, ht)
   | _ -> failwith "case"
 let pr_event = function
   | EvKey (t, m, s) -> Printf.sprintf "k%d:%d:%s" (int_of_z t) (int_of_z m) (hex_of s)
@@ -81,8 +84,9 @@ let cap = nat_of_int 256
 let pinned = (try Sys.getenv "VERIF_C20_PINNED" = "1" with Not_found -> false)
 let wait = zi 50000
 let stale = (try Sys.getenv "VERIF_C20_STALE" = "1" with Not_found -> false)
+let early = (try Sys.getenv "VERIF_C20_EARLY" = "1" with Not_found -> false)
 let model line =
-  let (chunks, tok, _, _) = parse_case line in
+  let (chunks, tok, _, _, ht) = parse_case line in
   (* one push per chunk, then its gap, then the poll of the time-out (as the harness does) *)
   let res =
     List.fold_left (fun acc (c, g) -> match acc with
@@ -91,13 +95,13 @@ let model line =
           let pushed =
             if pinned then
               (match push_bytes_pinned tok cap ts.t_in c with
-               | Some (e, s') -> Some (e, { t_in = s'; t_deadline = (if s'.i_armed then Some (z_of_int (now + 50000)) else None) })
+               | Some (e, s') -> Some ((e, { t_in = s'; t_deadline = (if s'.i_armed then Some (z_of_int (now + 50000)) else None) }), zi now)
                | None -> None)
-            else tpush tok cap wait stale (zi now) ts c in
+            else tpush tok cap wait stale early (zi ht) (zi now) ts c in
           (match pushed with
            | None -> None
-           | Some (e, ts') ->
-             let now' = now + g in
+           | Some ((e, ts'), now1) ->
+             let now' = int_of_z now1 + g in
              (match tpoll (zi now') ts' with
               | None -> Some (out @ List.map pr_event e @ ["FORCED"], now', ts')
               | Some m -> Some (out @ List.map pr_event e @ [Printf.sprintf "a%d" (int_of_z m)], now', ts'))))
@@ -124,7 +128,7 @@ let oracle line =
     if String.length o >= 5 && String.sub o 0 5 = "CRASH" then "BAD crash on malformed input" else "OK"
   | Some i ->
     let c = String.sub line 0 i and o = tl line (i + 1) in
-    let (_, _, keys, leftover) = parse_case c in
+    let (_, _, keys, leftover, _) = parse_case c in
     (match (try Some (parse_obs o) with _ -> None) with
      | None -> "BAD unreadable observation"
      | Some (evs, held, armed) ->
